@@ -115,7 +115,7 @@ class Symbol(Node):  # pylint: disable=too-few-public-methods
 
     def get_str_repr(self, sons_repr):
         value = str(self.value)
-        if value in SPECIAL_SYMBOLS:
+        if value in SPECIAL_SYMBOLS or value == " ":
             # A symbol spelled like an operator has to be escaped
             return "\\" + value
         return value
